@@ -188,6 +188,26 @@ int main(int argc, char** argv) {
       mjModel* a = mj_compile(s3, &vfs); same(a, "threaded compile of a re-parsed spec");
       mj_deleteModel(a); mj_deleteSpec(s3); sd::probe("reparse_compiles");
     }
+    if (st[4] && !files.empty() && rc.chance(0.5)) {
+      // a mesh file is replaced in the VFS by a slightly different one (lowest mantissa bit of some vertex coordinates) under the same name:
+      // the compile that follows finds the old file's processed mesh in the cache and must notice that the file changed - its model must
+      // equal the model compiled from the same spec and files with an empty cache
+      int fi = rc.below((int)files.size());
+      std::string nb = files[fi].second; int nvtx = 0; memcpy(&nvtx, nb.data(), sizeof(int));
+      for (int k = 0, n = rc.range(1, 4); k < n; k++) { size_t off = 4 * sizeof(int) + sizeof(float) * (size_t)rc.below(3 * nvtx); nb[off] ^= 1; }
+      mj_deleteFileVFS(&vfs, files[fi].first.c_str());
+      if (mj_addBufferVFS(&vfs, files[fi].first.c_str(), nb.data(), (int)nb.size())) { fprintf(stderr, "harness: cannot replace %s in the VFS\n", files[fi].first.c_str()); return 2; }
+      mjSpec* sw = mj_parseXMLString(xml.c_str(), &vfs, err, sizeof err); sw->compiler.usethread = rc.chance(0.5);
+      mjModel* mwarm = mj_compile(sw, &vfs);
+      clear_cache();
+      mjSpec* sk = mj_parseXMLString(xml.c_str(), &vfs, err, sizeof err); sk->compiler.usethread = 0;
+      mjModel* mcold = mj_compile(sk, &vfs);
+      if (!mwarm || !mcold) sd::violation("compile-failed", "compile after replacing mesh file %s failed (%s cache): %s", files[fi].first.c_str(), mwarm ? "cold" : "warm", mjs_getError(mwarm ? sk : sw));
+      std::vector<char> bw = model_bytes(mwarm), bc = model_bytes(mcold);
+      if (bw != bc) sd::violation("stale-asset", "after mesh file %s was replaced in the VFS, the compile that found the old file in the asset cache differs from the compile with an empty cache (first difference in %s)", files[fi].first.c_str(), diff_where(mcold, mwarm).c_str());
+      mj_deleteModel(mwarm); mj_deleteModel(mcold); mj_deleteSpec(sw); mj_deleteSpec(sk);
+      sd::probe("replaced_mesh_files");
+    }
     if (st[5] && !fuse) {
       // mj_recompile after an edit: the state of everything that still exists is preserved, and the model equals a fresh compile of the edited spec
       mjData* d = mj_makeData(m1);
